@@ -447,6 +447,10 @@ func (c *Ctx) ruleReadShape() {
 		}
 		for _, u := range unm {
 			good, detail := c.gateBefore(fn, u.Block(), nil, 0)
+			if !good && strings.HasPrefix(detail, "not decided") {
+				c.R.Infof("F6.gate", fname, "Unmarshal<-Equal", c.IPos(u), detail)
+				continue
+			}
 			c.R.Check(good, "F6.gate", fname, "Unmarshal<-Equal", c.IPos(u), "decoding happens only behind required.Equal(stored) == true", detail)
 		}
 		// Equal itself is the subset test: every bit of a is set in b
@@ -549,6 +553,26 @@ func (c *Ctx) ruleArgMapping() {
 							}
 						}
 					}
+				}
+			}
+			if !marshalled {
+				// the buffer object (however obtained: a pool, a helper) whose Bytes() is passed was
+				// handed to e.Marshal in this function
+				for v := range bs {
+					bc, ok := v.(*ssa.Call)
+					if !ok || ir.CallID(bc) != "bytes.Buffer.Bytes" {
+						continue
+					}
+					obj := ir.StripIface(bc.Call.Args[0])
+					instrsOf(fn, func(i ssa.Instruction) {
+						if call, ok := i.(ssa.CallInstruction); ok && call.Common().IsInvoke() && call.Common().Method.Name() == "Marshal" {
+							for _, a := range call.Common().Args {
+								if ir.StripIface(a) == obj {
+									marshalled = true
+								}
+							}
+						}
+					})
 				}
 			}
 			if !marshalled {
@@ -721,6 +745,10 @@ func (c *Ctx) judgeReadShape(fn *ssa.Function) {
 		return
 	}
 	var bad []string
+	if len(reads) == 0 {
+		c.R.Infof("F7.read", fname, "attrs-then-rest", c.Pos(fn.Pos()), "not decided for this shape: no read on the stream parameter is identified (the stream may be kept in a reader object and read through its methods)")
+		return
+	}
 	if len(reads) != 2 {
 		c.R.Violf("F7.read", fname, "attrs-then-rest", c.Pos(fn.Pos()), what, fmt.Sprintf("%d reads from the file (want: attributes, then remainder)", len(reads)))
 		return
@@ -1180,6 +1208,32 @@ func (c *Ctx) gateBefore(fn *ssa.Function, blk *ssa.BasicBlock, via *ssa.Call, d
 		acc := acceptingReturnsMode(callee, em)
 		all := len(acc) > 0
 		for _, r := range acc {
+			// a predicate helper whose verdict is the test itself: return required.Equal(stored)
+			if len(r.Results) > 0 {
+				if eq, isEq := effectiveResult(callee, r, 0).(*ssa.Call); isEq && ir.CallID(eq) == M+"/efi/attributes.Attributes.Equal" {
+					cp := paramByNamed(callee, M+"/efivar.Efivar")
+					rs, as := c.Slicer().Slice(eq.Call.Args[0]), c.Slicer().Slice(eq.Call.Args[1])
+					recvFromDef := cp != nil && rs[cp] && ir.HasField(rs, M+"/efivar.Efivar.Attributes")
+					// an operand that is (a field of) a parameter of the helper: what the caller passes there
+					for k, p := range callee.Params {
+						if ir.RootOf(ir.StripConv(eq.Call.Args[1])) == ssa.Value(p) && k < len(ir.CallArgs(call)) {
+							for v := range c.Slicer().Slice(ir.CallArgs(call)[k]) {
+								as[v] = true
+							}
+						}
+					}
+					argFromFile := len(ir.CallsIn(as, append(readers, M+"/efivarfs/fswrapper.FSWrapper.ParseEfivars")...)) > 0
+					recvFromFile := len(ir.CallsIn(rs, readers...)) > 0
+					if recvFromDef && argFromFile && !recvFromFile {
+						continue
+					}
+					if recvFromFile {
+						detail = "Equal is called with the stored mask as receiver: (stored & required) == stored accepts files lacking required attributes"
+					} else if recvFromDef {
+						return false, "not decided for this shape: the test required.Equal(x) is made in the helper " + name(callee) + " and where x comes from is not resolved"
+					}
+				}
+			}
 			if ok, d := c.gateBefore(callee, r.Block(), call, depth+1); !ok {
 				all = false
 				detail = d
